@@ -783,10 +783,21 @@ theorem addFail_good_noop {s : Svc} (h : Inv s) {p : String} {pick : List Ent} :
       obtain ⟨eni, sp⟩ := pickOK_spec hp
       simp only [if_true]
       rw [sp.head]
-      have : release s.pool p eni ((pick.filter (·.owner = none)).map (·.ip)) = s.pool :=
+      have : release s.pool p eni ((pick.filter fun e => e.owner = none || !(recordedFor s p e)).map (·.ip)) = s.pool :=
         release_unowned h.keys
           (fun e he => ⟨(sp.each e (List.mem_filter.mp he).1).mem, (sp.each e (List.mem_filter.mp he).1).onEni⟩)
-          (fun e he => by simpa using (List.mem_filter.mp he).2)
+          (fun e he => by
+            have hm := List.mem_filter.mp he
+            rcases (sp.each e hm.1).owner_cases with ho | ho
+            · -- bound to the pod: the invariant says it is recorded, so the filter dropped it
+              exfalso
+              obtain ⟨r, hr, he1, he2⟩ := h.recorded e (sp.each e hm.1).mem p ho
+              have hrec : recordedFor s p e = true := by
+                unfold recordedFor; rw [hr]; simp [he1, he2]
+              have := hm.2
+              rw [ho, hrec] at this
+              simp at this
+            · exact ho)
       rw [this]
     · rw [if_neg hp]
 
